@@ -144,6 +144,7 @@ func c18(r *core.Run) {
 	r.Floor("C18.SLOT", "appends to / replacements of the JSON store's signature list", nApp, 3)
 
 	c18Migrate(r)
+	c18ErrProp(r)
 	c18Codec(r)
 	c18FreshTarget(r, "C18.FRESH")
 	c07JSONSave(r, "C18.ATOMICSAVE")
@@ -451,4 +452,119 @@ func c18FreshTarget(r *core.Run, rule string) {
 		}
 	}
 	r.Floor(rule, "signature decodes inside loops", n, 3)
+}
+
+// c18ErrProp: "reported as an error rather than a short success" — the commands that load, migrate, add to or save
+// a signature store end in failure whenever the storage call failed: from the error-is-set edge of the test that
+// follows the call, no return that reports success (a nil error) is reachable, and the error is tested or returned.
+func c18ErrProp(r *core.Run) {
+	p := r.P
+	table := map[string]bool{"MigrateFromJSON": true, "ExportToJSON": true, "LoadDatabase": true, "SaveDatabase": true, "AddSignature": true, "AddSignatures": true}
+	n := 0
+	for _, fn := range p.FuncsIn("internal/cli") {
+		rt := resultTypes(fn)
+		if len(rt) == 0 || rt[len(rt)-1].String() != "error" {
+			continue
+		}
+		core.InstrsOf(fn, func(in ssa.Instruction) {
+			c, ok := in.(*ssa.Call)
+			if !ok {
+				return
+			}
+			g := core.StaticCallee(&c.Call)
+			name := ""
+			if g != nil && g.Signature.Recv() != nil && strings.Contains(core.Deref(g.Signature.Recv().Type()).String(), "/pkg/storage/") {
+				name = g.Name()
+			} else if c.Call.IsInvoke() {
+				name = c.Call.Method.Name()
+			}
+			if !table[name] {
+				return
+			}
+			// the error result
+			var errVals []ssa.Value
+			if tup, isTuple := c.Type().(*types.Tuple); isTuple {
+				if refs := c.Referrers(); refs != nil {
+					for _, ref := range *refs {
+						if ex, isEx := ref.(*ssa.Extract); isEx && ex.Index == tup.Len()-1 && ex.Type().String() == "error" {
+							errVals = append(errVals, ex)
+						}
+					}
+				}
+			} else if c.Type().String() == "error" {
+				errVals = append(errVals, c)
+			}
+			n++
+			construct := core.FuncName(fn) + "#error-of(" + name + ")"
+			if len(errVals) == 0 {
+				r.Fail("C18.ERRPROP", construct, c.Pos(), "the error of "+name+" is discarded: a failed load / migration / save ends as a success")
+				return
+			}
+			isErr := func(x ssa.Value) bool {
+				x = core.Unwrap(x)
+				for _, e := range errVals {
+					if x == e {
+						return true
+					}
+				}
+				return false
+			}
+			var success []*ssa.BasicBlock
+			returned := false
+			for _, ret := range core.Returns(fn) {
+				last := ret.Results[len(ret.Results)-1]
+				for _, o := range core.Origins(last) {
+					if isErr(o) {
+						returned = true
+						continue
+					}
+					// a freshly made or wrapping error is a failure too; anything else (nil, the result of a later
+					// step) can be nil
+					if oc, isCall := o.(*ssa.Call); isCall {
+						cn := core.CalleeName(&oc.Call)
+						if cn == "fmt.Errorf" || cn == "errors.New" || cn == "errors.Join" {
+							continue
+						}
+					}
+					success = append(success, ret.Block())
+				}
+			}
+			tested := false
+			var wit []int
+			for _, b := range fn.Blocks {
+				if len(b.Instrs) == 0 {
+					continue
+				}
+				ifi, isIf := b.Instrs[len(b.Instrs)-1].(*ssa.If)
+				if !isIf {
+					continue
+				}
+				x, nonNilOnTrue, okN := core.NilCompare(ifi.Cond)
+				if !okN || !isErr(x) {
+					continue
+				}
+				tested = true
+				idx := 1
+				if nonNilOnTrue {
+					idx = 0
+				}
+				// leave b through the error-is-set edge only
+				cut := map[core.Edge]bool{{From: b, Idx: 1 - idx}: true}
+				for _, sb := range success {
+					if pth := core.PathAvoiding(b, sb, cut); pth != nil && wit == nil {
+						wit = pth
+					}
+				}
+			}
+			switch {
+			case wit != nil:
+				r.Fail("C18.ERRPROP", construct, c.Pos(), "after "+name+" failed a return that reports success is reachable (path "+core.FmtPath(wit)+"): a truncated or malformed file, or a failed write, ends as a (short) success")
+			case !tested && !returned:
+				r.Fail("C18.ERRPROP", construct, c.Pos(), "the error of "+name+" is neither tested nor returned")
+			default:
+				r.OK("C18.ERRPROP", construct, c.Pos(), "a failure of "+name+" ends the command in failure on every path")
+			}
+		})
+	}
+	r.Floor("C18.ERRPROP", "storage calls of the commands whose failure must fail the command", n, 6)
 }
